@@ -1176,6 +1176,32 @@ fn cmd_codec_random(args: &[String]) {
         bytes[32..40].copy_from_slice(&(1u64 << 40).to_le_bytes());   // literal length prefix
         emit(&mut w, "patch", "delta: literal length prefix 2^40".into(), &bytes, true);
     }
+    // copy instructions at the edges of u64 / of the basis: offset + len must neither wrap nor pass the end
+    if let Some(pos) = lib_delta.ops.iter().position(|o| matches!(o, copia::DeltaOp::Copy { .. })) {
+        let len = match lib_delta.ops[pos] { copia::DeltaOp::Copy { len, .. } => len, _ => 0 };
+        let l64 = u64::from(len);
+        let bl = basis.len() as u64;
+        for off in [u64::MAX, u64::MAX - l64 + 1, u64::MAX - l64, u64::MAX - l64 - 1, 1u64 << 63, (1u64 << 63) - 1, 1u64 << 32, bl, bl - l64 + 1] {
+            let mut d = lib_delta.clone();
+            d.ops[pos] = copia::DeltaOp::Copy { offset: off, len };
+            emit(&mut w, "patch", format!("delta: copy offset {off} len {len}"), &bincode::serialize(&d).unwrap(), true);
+        }
+        for (off, l) in [(0u64, u32::MAX), (u64::MAX, u32::MAX), (u64::MAX - 1, 1u32), (u64::MAX, 0u32), (bl, 1u32)] {
+            let mut d = lib_delta.clone();
+            d.ops[pos] = copia::DeltaOp::Copy { offset: off, len: l };
+            emit(&mut w, "patch", format!("delta: copy offset {off} len {l}"), &bincode::serialize(&d).unwrap(), true);
+        }
+        for bsz in [0u64, 1, u64::MAX] {
+            let mut d = lib_delta.clone();
+            d.basis_size = bsz;
+            emit(&mut w, "patch", format!("delta: basis_size {bsz}"), &bincode::serialize(&d).unwrap(), false);
+        }
+        for ssz in [0u64, 1, u64::MAX, 1u64 << 40] {
+            let mut d = lib_delta.clone();
+            d.source_size = ssz;
+            emit(&mut w, "patch", format!("delta: source_size {ssz}"), &bincode::serialize(&d).unwrap(), false);
+        }
+    }
     for _ in 0..60 { let mut v = d_bytes.clone(); let i = rng.gen_range(0..v.len()); v[i] ^= 1 << rng.gen_range(0..8); emit(&mut w, "patch", format!("delta bit flip at {i}"), &v, false); }
     for len in [0usize, 3, 100, 5000] { let v: Vec<u8> = (0..len).map(|_| rng.gen()).collect(); emit(&mut w, "patch", format!("delta garbage {len}"), &v, len < 28); }
     w.finish();
